@@ -15,7 +15,7 @@ import (
 
 // C10 — string literals are HTML-escaped on output; raw() is the exact opt-out.
 
-var escapeAtoms = []string{"<", ">", "&", ";", "#", "\"", "'", "a", "3", "4", "9", "l", "t", "g", "m", "p", "é", "中", " "}
+var escapeAtoms = []string{"<", ">", "&", ";", "#", "\"", "'", "\\", "a", "3", "4", "9", "l", "t", "g", "m", "p", "é", "中", " "}
 
 var allowedEntities = []string{"&lt;", "&gt;", "&amp;", "&#34;", "&#39;"}
 
@@ -80,6 +80,12 @@ var stringContexts = []litContext{
 	{"third-pass-of-for-raw", func(q string) string {
 		return "@for(k = 0; k < 3; k++){{ v = " + q + ".raw() }}@if(k == 2)[[{{ v }}]]@end@end"
 	}, func(l string) string { return l }, true},
+	{"variable-after-raw", func(q string) string { return "{{ v = " + q + " }}{{ v.raw().len() }}[[{{ v }}]]" }, func(l string) string { return l }, false},
+	{"raw-twice", func(q string) string { return "{{ v = " + q + " }}{{ v.raw().len() }}[[{{ v.raw() }}]]" }, func(l string) string { return l }, true},
+	{"array-after-raw", func(q string) string { return "{{ a = [" + q + "] }}{{ a[0].raw().len() }}[[{{ a }}]]" }, func(l string) string { return l }, false},
+	{"loop-variable-after-raw", func(q string) string {
+		return "@each(e in [" + q + "]){{ e.raw().len() }}[[{{ e }}]]@end"
+	}, func(l string) string { return l }, false},
 	{"raw", func(q string) string { return "[[{{ " + q + ".raw() }}]]" }, func(l string) string { return l }, true},
 	{"raw-concat", func(q string) string { return "[[{{ (" + q + " + " + q + ").raw() }}]]" }, func(l string) string { return l + l }, true},
 	{"raw-assigned", func(q string) string { return "{{ v = " + q + " }}[[{{ v.raw() }}]]" }, func(l string) string { return l }, true},
